@@ -73,20 +73,62 @@ def _sorted_pools(intensity):
         return sp.srepr(intensity)
 
 
+_SIMPLE = (str, int, float, complex, bool, type(None))
+
+
+def _structure(expr) -> str:
+    """What srepr does not show: module-qualified class of every node and its non-SymPy (instance
+    `__dict__`) attributes of simple type."""
+    import sympy as sp
+
+    if not isinstance(expr, sp.Basic):
+        return f"<{type(expr).__module__}.{type(expr).__qualname__}:{expr!r}>"
+    parts = []
+    for node in sp.preorder_traversal(expr):
+        t = type(node)
+        s = f"{t.__module__}.{t.__qualname__}"
+        extra = getattr(node, "__dict__", None)
+        if extra:
+            items = []
+            for k, v in sorted(extra.items()):
+                if isinstance(v, _SIMPLE):
+                    items.append(f"{k}={v!r}")
+                elif isinstance(v, tuple) and all(isinstance(x, _SIMPLE) for x in v):
+                    items.append(f"{k}={v!r}")
+            if items:
+                s += "{" + ",".join(items) + "}"
+        parts.append(s)
+    return "|".join(parts)
+
+
+def _full(expr) -> str:
+    import sympy as sp
+
+    return (sp.srepr(expr) if isinstance(expr, sp.Basic) else repr(expr)) + "#" + _structure(expr)
+
+
 def digest_model(model, reaction) -> dict:
-    """srepr per attribute INCLUDING key order; `reaction_info` by value and identity."""
+    """srepr + node classes + non-SymPy node attributes per attribute, INCLUDING key order and the
+    container / key / value types; `reaction_info` by value and identity."""
     import qrules.io
     import sympy as sp
 
+    def tname(x):
+        return f"{type(x).__module__}.{type(x).__qualname__}"
+
     out = {
-        "intensity": sp.srepr(model.intensity),
-        "amplitudes": ";".join(sp.srepr(k) + "=>" + sp.srepr(v) for k, v in model.amplitudes.items()),
-        "parameter_defaults": ";".join(sp.srepr(k) + "=>" + repr(v) for k, v in model.parameter_defaults.items()),
-        "kinematic_variables": ";".join(sp.srepr(k) + "=>" + sp.srepr(v) for k, v in model.kinematic_variables.items()),
-        "components": ";".join(k + "=>" + sp.srepr(v) for k, v in model.components.items()),
-        "reaction_info": ("same-object" if model.reaction_info is reaction else "other-object")
-        + json.dumps(qrules.io.asdict(model.reaction_info), cls=qrules.io.JSONSetEncoder, sort_keys=True),
+        "intensity": _full(model.intensity),
+        "amplitudes": tname(model.amplitudes) + ";".join(_full(k) + "=>" + _full(v) for k, v in model.amplitudes.items()),
+        "parameter_defaults": tname(model.parameter_defaults)
+        + ";".join(_full(k) + "=>" + tname(v) + ":" + repr(v) for k, v in model.parameter_defaults.items()),
+        "kinematic_variables": tname(model.kinematic_variables)
+        + ";".join(_full(k) + "=>" + _full(v) for k, v in model.kinematic_variables.items()),
+        "components": tname(model.components) + ";".join(tname(k) + ":" + k + "=>" + _full(v) for k, v in model.components.items()),
+        "reaction_info": ("same-object" if model.reaction_info is reaction else "other-object") + tname(model.reaction_info)
+        + json.dumps(qrules.io.asdict(model.reaction_info), cls=qrules.io.JSONSetEncoder, sort_keys=True)
+        + "|order:" + _h(repr([repr(t) for t in model.reaction_info.transitions])),
     }
+    out["intensity"] = tname(model) + out["intensity"]
     d = {k: _h(v) for k, v in out.items()}
     d["intensity_sorted_pools"] = _h(_sorted_pools(model.intensity))
     d["amp_unordered"] = _h(";".join(sorted(sp.srepr(k) + "=>" + sp.srepr(v) for k, v in model.amplitudes.items())))
@@ -228,6 +270,43 @@ BAD_ASSIGNMENTS = {
 }
 
 
+OP_CAP_S = 180
+
+
+class OperationTimeout(Exception):
+    pass
+
+
+class _time_cap:  # noqa: N801
+    """Wall-clock cap for one operation (main thread only): a stuck formulate() becomes an error
+    outcome `Other:OperationTimeout`, i.e. a digest that differs from every real model."""
+
+    def __init__(self, seconds: int):
+        self.seconds = seconds
+        self.armed = False
+
+    def __enter__(self):
+        import signal
+        import threading
+
+        if threading.current_thread() is threading.main_thread():
+            def handler(signum, frame):
+                raise OperationTimeout(f"operation exceeded {self.seconds}s")
+
+            self.old = signal.signal(signal.SIGALRM, handler)
+            signal.setitimer(signal.ITIMER_REAL, self.seconds)
+            self.armed = True
+        return self
+
+    def __exit__(self, *a):
+        import signal
+
+        if self.armed:
+            signal.setitimer(signal.ITIMER_REAL, 0)
+            signal.signal(signal.SIGALRM, self.old)
+        return False
+
+
 class Executor:
     """Runs a history on the real code; records what the Lean model needs to follow it."""
 
@@ -249,7 +328,8 @@ class Executor:
 
         kind = op["op"]
         if kind == "new":
-            reaction = load_reaction(op["r"]) if self.share else fresh_reaction(op["r"])
+            # "fresh": an EQUAL but not identical reaction object (qrules.io round trip)
+            reaction = load_reaction(op["r"]) if (self.share and not op.get("fresh")) else fresh_reaction(op["r"])
             b = ampform.get_builder(reaction)
             self.builders.append(b)
             self.names.append(op["r"])
@@ -272,6 +352,8 @@ class Executor:
                 b.config.stable_final_state_ids = None if value is None else list(value)
             elif field == "dyn":
                 b.dynamics.assign(value[0], _dynamics(value[1]))
+            elif field == "dyn_decay":
+                b.dynamics.assign(list(b.dynamics)[value[0]], _dynamics(value[1]))
             elif field == "naming":
                 b.naming.insert_parent_helicities = bool(value & 1)
                 b.naming.insert_child_helicities = bool(value & 2)
@@ -300,7 +382,7 @@ class Executor:
             return {"order": order, "added": sorted(set(order) - before)}
         if kind == "formulate":
             try:
-                with warnings.catch_warnings():
+                with warnings.catch_warnings(), _time_cap(OP_CAP_S):
                     warnings.simplefilter("ignore")
                     model = b.formulate()
             except Exception as e:  # noqa: BLE001
@@ -353,7 +435,13 @@ def extract_world(rname: str, rid: int, shared: dict) -> tuple[list[str], dict]:
     csv = lambda l: ",".join(map(str, l)) if l else "-"  # noqa: E731
     comb = combinatorics_topologies(reaction, pool)
     lines = [f"reaction {rid} {csv(init)} {csv(final)} {csv(own)} {csv(comb)}"]
-    info = {"init": init, "final": final, "own": own, "comb": comb, "pool": len(pool), "dpd": {}, "axis": None,
+    try:
+        import ampform
+
+        decays = [d.parent.particle.name for d in ampform.get_builder(reaction).dynamics]
+    except Exception:  # noqa: BLE001
+        decays = []
+    info = {"init": init, "final": final, "own": own, "comb": comb, "pool": len(pool), "dpd": {}, "axis": None, "decays": decays,
             "particles": sorted({s.particle.name for t in reaction.transitions for i, s in t.states.items()
                                  if i in t.intermediate_states})}
 
@@ -480,6 +568,8 @@ def hash_order_fingerprint(reactions: list[str]) -> dict:
                 fp["indexed-atoms:" + r] = [str(a) for a in intensity_atoms(model)]
             except Exception as e:  # noqa: BLE001
                 fp["indexed-atoms:" + r] = ["error:" + type(e).__name__]
+    fp["stable-ids-set"] = [str(x) for x in {3, 1, 2}] + [str(x) for x in {2, 0, 1}]
+    fp["state-id-frozenset"] = [str(x) for x in frozenset({3, 0, 2, 1})]
     fp["half-integers"] = [str(x) for x in {sp.Rational(-1, 2), sp.Rational(1, 2)}]
     fp["half-integers-3/2"] = [str(x) for x in {sp.Rational(-3, 2), sp.Rational(-1, 2), sp.Rational(1, 2), sp.Rational(3, 2)}]
     fp["integers"] = [str(x) for x in {sp.Integer(-1), sp.Integer(0), sp.Integer(1)}]
